@@ -119,7 +119,7 @@ def conclude(pid, tier, seed, obls, infos, undecided_reasons, wall, write_eviden
             d["low_level_vcs"] += o.vcs
         head, dirty = repo_head()
         ev = {
-            "property_id": pid, "tier": tier, "seed": seed, "level": "proof",
+            "property_id": pid, "tier": tier, "seed": seed, "level": P.get("category", "proof"),
             "coverage": {
                 "obligations": n_obl, "discharged": n_dis,
                 "checker_cmd": "; ".join(sum([info.get("cmds", info.get("kani_cmds", [])) for info in infos.values()], [])) or "none",
